@@ -55,6 +55,7 @@ class World:
         serde = cfg.pop("serde", None)
         if serde is not None:
             cfg["serde"] = make_serde(serde)
+        harness_client_class = cfg.pop("harness_client_class", None)
         cfg["socket_module"] = self.net
         stack = spec.get("stack", "client")
         self.stack = stack
@@ -69,6 +70,10 @@ class World:
             self.obj = base.Client(first, **cfg)
         elif stack == "pooled":
             self.obj = base.PooledClient(first, **cfg)
+            if harness_client_class == "falsy":
+                # client_class is the documented hook for a Client subclass; this one is falsy (a __len__ that reports the
+                # number of items it has cached locally, say): the pool holds objects, not truth values
+                self.obj.client_class = _falsy_client_class()
         elif stack == "hash":
             self.patch_time(hashmod)
             self.obj = hashmod.HashClient(hash_servers, **cfg)
@@ -127,8 +132,19 @@ class World:
             self.outcomes.append(out)
             return out
         self.net.begin_call(i)
+        flags = op[3] if len(op) > 3 else {}
         try:
-            if name in ("__getitem__", "__setitem__", "__delitem__"):
+            if flags.get("in_except"):
+                # the caller is in the middle of handling some unrelated exception of its own (an except block, a __exit__
+                # during unwinding): sys.exc_info() is not empty while the library runs
+                try:
+                    raise LookupError("the caller's own, unrelated exception")
+                except LookupError:
+                    if name in ("__getitem__", "__setitem__", "__delitem__"):
+                        r = getattr(type(self.obj), name)(self.obj, *args)
+                    else:
+                        r = getattr(self.obj, name)(*args, **kwargs)
+            elif name in ("__getitem__", "__setitem__", "__delitem__"):
                 r = getattr(type(self.obj), name)(self.obj, *args)
             else:
                 r = getattr(self.obj, name)(*args, **kwargs)
@@ -141,6 +157,15 @@ class World:
             self.net.end_call()
         self.outcomes.append(out)
         return out
+
+
+def _falsy_client_class():
+    import pymemcache.client.base as base
+
+    class FalsyClient(base.Client):
+        def __len__(self):
+            return 0
+    return FalsyClient
 
 
 class RaisingSerde:
